@@ -178,7 +178,6 @@ void Search::stop()
 void Search::go()
 {
     init_search();
-    stop_search = false;
     _start_time = std::chrono::steady_clock::now();
 
     // check if there is only one move to make
